@@ -92,7 +92,7 @@ def r1(R, repo):
         # FrozenDict -> FrozenDict sharing: only callers are FrozenDict.__init__ (stores into a new _dict) and itself
         callers = [(g, c) for g in mod.funcs.values() for c in astu.func_calls(g) if astu.call_name(c) == '_prepare_freeze']
         ok = all(g.qual in ('FrozenDict.__init__', '_prepare_freeze') for g, _ in callers)
-        ext = [(m.rel, g.qual) for m in repo.mods.values() if m is not mod for g in m.funcs.values()
+        ext = [(m.rel, g.qual) for m in repo.mods_with('_prepare_freeze') if m is not mod for g in m.funcs.values()
                for c in astu.func_calls(g) if (astu.call_tail(c) == '_prepare_freeze')]
         R.check(ok and not ext, key, where, '_prepare_freeze hands out a FrozenDict\'s private dict; it may only be called by FrozenDict.__init__ '
                 'and itself, found callers %s' % ([g.qual for g, _ in callers] + ext))
@@ -109,7 +109,7 @@ def r1(R, repo):
       continue
     R.fail(key, where, 'unclassified use of the private dict: `%s`' % astu.short(astu.enclosing_stmt(n)))
   # the skip-copy constructor flag may only be used by tree_unflatten
-  for m in repo.mods.values():
+  for m in repo.mods_with('__unsafe_skip_copy__'):
     for f in m.funcs.values():
       for c in astu.func_calls(f):
         v = astu.kwarg(c, '__unsafe_skip_copy__')
@@ -162,7 +162,7 @@ def r2(R, repo):
   R.check(len(body) == 1 and isinstance(body[0], ast.Raise), key_of(si, 'raises unconditionally'), si, 'FrozenDict.__setitem__ must raise unconditionally')
   # stores to _dict / _hash
   n_st = 0
-  for m in (repo.mods.values() if R.ctx.tier == 'thorough' else [mod]):
+  for m in (repo.mods_with('._dict', '._hash') if R.ctx.tier == 'thorough' else [mod]):
     for f in m.funcs.values():
       for n in astu.body_walk(f.node):
         tgt = None
@@ -367,7 +367,7 @@ def r4(R, repo):
 def struct_classes(repo):
   """(mod, qual) of classes that are struct dataclasses / PyTreeNodes / frozen dataclasses."""
   out = []
-  for m in repo.mods.values():
+  for m in repo.mods_with('dataclass', 'PyTreeNode', 'Partitioned', 'TrainState'):
     for q, cnode in m.classes.items():
       kind = None
       for d in cnode.decorator_list:
